@@ -4,6 +4,7 @@
   property's executable specification predicate on the implementation's output (`spec`).
 -/
 import GoNeat.Driver.Json
+import GoNeat.Driver.WFCheck
 import GoNeat.Model.Compat
 import GoNeat.Spec.WF
 import GoNeat.Spec.Compat
@@ -57,9 +58,15 @@ def hDuplicate : Handler := fun j => do
                else if !srcIntact then "source genome modified by duplicate" else ""
     let nontriv := g.genes.any (fun x => !x.en) || g.genes.any (·.recur) || !g.modules.isEmpty ||
                    g.genes.any (·.trait.isNone)
-    return { corr := diff.isNone, spec := spec, nontrivial := nontriv && refsOk, cls := cls,
+    -- C01 (duplication clause; modular genomes included): a well-formed genome has a well-formed, expressible copy
+    let genesis := (fldStr out "genesis").toOption.getD ""
+    let c01 : Option (String × String) :=
+      if decide (C01.WFT g) && inputOwn then c01Produced "duplicate" [g] implG dj genesis else none
+    let c06sig := if spec then "" else if !exact then "duplicate:not-exact" else "duplicate:not-independent"
+    return { corr := diff.isNone, spec := spec && c01.isNone, nontrivial := nontriv && refsOk, cls := cls,
              detail := (diff.getD "") ++ (if spec then "" else why),
-             sig := if spec then "" else if !exact then "duplicate:not-exact" else "duplicate:not-independent" }
+             sig := c06sig,
+             props := [("C06", spec, why, c06sig), ("C01", c01.isNone, (c01.map (·.1)).getD "", (c01.map (·.2)).getD "")] }
 where
   _u : Unit := ()
 
@@ -146,7 +153,18 @@ def hInsert : Handler := fun j => do
   -- spec (C01 building block): sorted in ⇒ sorted out, and the result is the input plus the new element, old order kept
   let spec := !sortedIn || (isSortedLe (res.map (·.key)) && res.filter (· != n) == l && res.length == l.length + 1)
   let intact ← fldBool out "inputIntact"
-  return { corr := m == res, spec := spec && intact, nontrivial := l.length ≥ 2,
+  let opName := (fldStr j "op").toOption.getD "insert"
+  -- C01 building block in the words of the property: strictly sorted list + absent key ⇒ strictly sorted list that is
+  -- the old list plus the new element
+  let rec strict : List Int → Bool
+    | [] => true
+    | [_] => true
+    | x :: y :: r => decide (x < y) && strict (y :: r)
+  let absent := !l.any (·.key == n.key)
+  let c01 := !(strict (l.map (·.key)) && absent) ||
+             (strict (res.map (·.key)) && res.filter (· != n) == l && res.length == l.length + 1)
+  return { corr := m == res, spec := spec && intact && c01, nontrivial := l.length ≥ 2,
+           props := [("C01", c01, "ordered insertion broke the strict order / lost an element", "wf:" ++ opName ++ ":order")],
            cls := if sortedIn then (if l.any (·.key == n.key) then "equal-key" else "sorted") else "unsorted",
            detail := if m == res then "" else s!"model {repr m} vs impl {repr res}",
            sig := if spec && intact then "" else "insert:order" }
